@@ -61,6 +61,10 @@ fn eval(req: &str) -> ImplOut {
     let bytes = m.to_bytes();
     match UserModel::from_bytes(&bytes, "en") {
         Ok(mut m2) => {
+            // "an identical workbook": what was decoded is what was encoded, before anything is re-evaluated
+            if m2.get_model().workbook != m.get_model().workbook {
+                out = out.fail("c26:decoded-struct", "the decoded Workbook structure differs from the encoded one (before evaluation)");
+            }
             m2.evaluate();
             let after = snapshot(m2.get_model());
             if before != after {
@@ -69,8 +73,53 @@ fn eval(req: &str) -> ImplOut {
             }
             // the decoded structure is the encoded one (HashMap iteration order makes the BYTES
             // unstable, which is not observable; the structures are compared instead)
+            // after evaluation: values, contents and formula texts (the property's list).  The diagnostic
+            // message cached in an error value (`m:`) is none of these: a parse-error formula is kept
+            // verbatim in A1 form and re-read by the R1C1 parser at load, which words its complaint differently.
             if m2.get_model().workbook != m.get_model().workbook {
-                out = out.fail("c26:workbook-struct", "the loaded and evaluated Workbook structure differs from the original");
+                // name the first difference of the two structures (sorted Debug lines: HashMap order is not stable)
+                let lines = |w: &ironcalc_base::types::Workbook| -> Vec<String> {
+                    let mut v: Vec<String> = vec![];
+                    for (i, ws) in w.worksheets.iter().enumerate() {
+                        for (r, row) in &ws.sheet_data {
+                            for (c, cell) in row {
+                                let mut t = format!("{cell:?}");
+                                while let Some(p) = t.find(", m: \"") {
+                                    let rest = &t[p + 6..];
+                                    let end = rest.find("\" }").map(|e| p + 6 + e + 1).unwrap_or(t.len());
+                                    t.replace_range(p..end, "");
+                                }
+                                v.push(format!("sheet{i} cell {r},{c}: {t}"));
+                            }
+                        }
+                        for (k, f) in ws.shared_formulas.iter().enumerate() {
+                            v.push(format!("sheet{i} formula {k}: {f}"));
+                        }
+                        v.push(format!("sheet{i} rows {:?} cols {:?} dims {:?}", ws.rows, ws.cols, ws.dimension));
+                    }
+                    v.push(format!("names {:?}", w.defined_names));
+                    v.sort();
+                    v
+                };
+                let (a, b) = (lines(&m.get_model().workbook), lines(&m2.get_model().workbook));
+                let d = a.iter().zip(b.iter()).find(|(x, y)| x != y).map(|(x, y)| format!("`{x}` vs `{y}`"));
+                let only_messages = d.is_none() && a.len() == b.len() && {
+                    // everything outside the cells' cached messages must still be equal
+                    let strip = |w: &ironcalc_base::types::Workbook| {
+                        let mut w = w.clone();
+                        for ws in w.worksheets.iter_mut() {
+                            ws.sheet_data.clear();
+                        }
+                        w
+                    };
+                    strip(&m.get_model().workbook) == strip(&m2.get_model().workbook)
+                };
+                let d = d.unwrap_or_else(|| format!("{} vs {} entries (or a field outside cells/formulas/rows/cols/names)", a.len(), b.len()));
+                if only_messages {
+                    out = out.tag("reload:error-message-reworded");
+                } else {
+                out = out.fail("c26:workbook-struct", &format!("the loaded and evaluated Workbook structure differs from the original: {d}"));
+                }
             }
         }
         Err(e) => out = out.fail("c26:load-error", &e),
